@@ -670,7 +670,7 @@ pub fn check_json<K: Kmer>(text: &[u8], g: &DebruijnGraph<K, u16>, rest: &Option
 }
 
 fn tmp_path(tag: &str) -> std::path::PathBuf {
-    let dir = std::path::PathBuf::from("/verif/target/tmp");
+    let dir = std::path::PathBuf::from(std::env::var("VERIF_TMP").unwrap_or_else(|_| "/verif/target/tmp".into()));
     let _ = std::fs::create_dir_all(&dir);
     dir.join(format!("{}-{}-{:?}.gfa", tag, std::process::id(), std::thread::current().id()))
 }
